@@ -20,12 +20,12 @@ PROPS = {
         coq_targets_thorough=["Props/Properties_C02x.vo", "Props/Properties_C02lx.vo"],
         props_files=["Props/Properties_C02.v", "Props/Properties_C02t.v", "Props/Properties_C02l.v", "Props/Properties_C02k.v", "Props/Properties_C02k2.v"],
         props_files_thorough=["Props/Properties_C02x.v", "Props/Properties_C02lx.v"],
-        cone=["Proofs/C02_*.v", "Props/Properties_C02*.v", "Doc/Exp.v", "Base/Kernels.v", "Base/KernelQ.v", "Base/KernelL.v", "Base/Trig.v"],
+        cone=["Proofs/C02_*.v", "Props/Properties_C02*.v", "Doc/Exp.v", "Base/Kernels.v", "Base/KernelQ.v", "Base/KernelL.v", "Base/AtanEncl.v", "Base/Trig.v"],
         harnesses=[dict(name="h_c02")],
         trusted_base=TB_COMMON + ["Doc/Exp.v: hand-written closed-form flows t |-> Phi_a(t) (Rodrigues etc.), proved in Coq to solve Phi' = Phi hat(a), Phi(0)=I; `is_mexp` = value at 1 of such a curve (uniqueness of the ODE solution is classical and not formalised)",
                                   "harness/h_c02.cpp + docmat.hpp: long-double scaling-and-squaring Taylor oracle for expm(hat a)"],
         assumptions=["rounding is not modelled: the 1e-9/1e-3 accuracy clause and the log round trips are decided by the oracle harness on stratified inputs",
-                     "log: range and both exact round trips are theorems for SO2 and C1 (unconditional), SO3 and SE2 (closed-form branches of exp and log; SO3 on the canonical hemisphere qw >= 0; SE2 for angles strictly inside (-pi, pi); SE3 both round trips in the thorough tier for angles below pi); the series branch of SE2 log is proved to be the closed-form branch with (th/2)/tan(th/2) replaced by 1 - th^2/12 (kernel difference <= th^4/600); the other series branches of log, Galilei/SE_K_3 log and the behaviour at exactly pi are decided by the harness; truncation theorems are at kernel level (trig.hpp) and at function level for the exp of SO3, SE2, SE3, Galilei and SE_K_3<1..3> (rotation and translation parts: series path = closed-form path with the kernels replaced by their Taylor polynomials, kernel differences bounded)"],
+                     "log: range and both exact round trips are theorems for SO2 and C1 (unconditional), SO3 and SE2 (closed-form branches of exp and log; SO3 on the canonical hemisphere qw >= 0; SE2 for angles strictly inside (-pi, pi); SE3 both round trips in the thorough tier for angles below pi); the series branches of SE2 log and SO3 log are proved to be the closed-form branches with the kernel replaced by its series ((th/2)/tan(th/2) vs 1 - th^2/12, difference <= th^4/600; 2 atan2(n,w)/n vs 2/w - 2n^2/(3w^3), difference <= 2n^4/(5w^5), from an atan enclosure proved with the mean value theorem); the other series branches of log, Galilei/SE_K_3 log and the behaviour at exactly pi are decided by the harness; truncation theorems are at kernel level (trig.hpp) and at function level for the exp of SO3, SE2, SE3, Galilei and SE_K_3<1..3> (rotation and translation parts: series path = closed-form path with the kernels replaced by their Taylor polynomials, kernel differences bounded)"],
     ),
     "C06": dict(
         tracer_units=["SO2", "SO3", "SE2", "SE3", "SE3H", "C1", "Rn", "BA", "BB", "BC", "BD", "BEi", "BE", "BF", "BG"],
@@ -106,13 +106,13 @@ MANIFEST_TEXT = {
         design_ref="DESIGN.md section 5 C11",
     ),
     "C04": dict(
-        technique="Coq proof over the regenerated model: Coquelicot auto_derive of the (proved) exponential flow w.r.t. every tangent coordinate equals flow * hat(column of the traced dr_exp) - the defining relation of the right Jacobian; field proofs that the traced dr_expinv is its inverse and dl_exp = Ad(exp) dr_exp; translator validation; long-double integral oracle harness",
+        technique="Coq proof over the regenerated model: Coquelicot auto_derive of the (proved) exponential flow w.r.t. every tangent coordinate equals flow * hat(column of the traced dr_exp) - the defining relation of the right Jacobian; field proofs that the traced dr_expinv is its inverse and dl_exp = Ad(exp) dr_exp; series-side theorems by kernel abstraction with proved kernel enclosures; translator validation; long-double integral oracle harness",
         text="For SO3, SE2 (and SE3 in the thorough tier) and every tangent vector on the closed-form side of the switch: machine-checked that d/da_k exp(a) = exp(a) hat(dr_exp(a) e_k) entry by entry (exp(a) being the flow that C02 proves equal to the traced exp and to be the matrix exponential), that the traced dr_expinv is the two-sided matrix inverse of the traced dr_exp (sin theta <> 0), and that dl_exp(a) = Ad(exp a) dr_exp(a) across both sign-canonicalisation outcomes. The regenerated model makes any changed coefficient or sign in calc_S1/cos_2/sin_3/calculate_q break an obligation. Below the switch the series paths of dr_exp and dl_exp (SO3, SE2, SE3, Galilei, SE_K_3<1..3>) are proved to be the closed-form paths with the trig.hpp kernels replaced by their Taylor polynomials (differences <= 1e-28), and the series path of dr_expinv (SO3, SE2) is proved to be the same matrix polynomial as the closed-form path with the kernel 1/t^2-(1+cos t)/(2t sin t) replaced by 1/12+t^2/720, the two differing by at most 4e-21 (kernel enclosure proved from the alternating series of sin and cos). All groups, float/double, the remaining series branches, dr_action, dr_rminus and dr_rminus_squarednorm are checked against an independent long-double oracle Jr(a)=int_0^1 expm(-s ad a) ds on stratified inputs.",
         note="Trusted: Coq kernel, Coquelicot; translator (validated each run); rounding not modelled. Known findings C04-K1-* (cancellation just above the switch; Galilei double, dr_rminus_squarednorm, single precision).",
         design_ref="DESIGN.md section 5 C04",
     ),
     "C05": dict(
-        technique="Coq proof over the regenerated model: Coquelicot auto_derive of every entry of the traced closed-form dr_exp / dr_expinv w.r.t. every tangent coordinate equals the corresponding entry of the traced d2r_exp / d2r_expinv in the documented stacked layout (field with trig atoms); translator validation; long-double Richardson oracle harness",
+        technique="Coq proof over the regenerated model: Coquelicot auto_derive of every entry of the traced closed-form dr_exp / dr_expinv w.r.t. every tangent coordinate equals the corresponding entry of the traced d2r_exp / d2r_expinv in the documented stacked layout (field with trig atoms); series-side theorems for d2r_exp by kernel abstraction with proved kernel enclosures; translator validation; long-double Richardson oracle harness",
         text="For SO3 and SE2 and every tangent vector on the closed-form side of the switch: machine-checked that (d2r_exp a)[j][Dof*i+k] is the derivative of (dr_exp .)[i][j] with respect to a_k, and likewise d2r_expinv for dr_expinv (sin theta <> 0), for all 27+27 entries and both groups - i.e. the hand-expanded Hessian tables are the true second-order derivatives of the coded Jacobians in the documented layout; the closed-form path of each traced function is pinned by a lemma. The regenerated model makes any changed coefficient, sign or slot in either table break an obligation. Below the switch the series path of SE2 and SO3 d2r_exp is proved to be the same table (SE2: documented 3x9 table; SO3: the closed-form path with its kernels abstracted) as the closed-form path with the four kernels (1-cos z)/z^2, (z-sin z)/z^3 and their derivatives replaced by the Taylor polynomials the code uses (incl. the binary64 literal 1./6), the kernels differing by at most 1e-17-scale bounds (enclosures proved from the alternating series) - the kind of obligation that the repaired -wz/48 coefficient violates. SE3 (216-entry table), the other series branches, the left variants and the generic helpers d_matrix_product / d2_fog are decided by the oracle harness (polynomial maps with exact derivatives; Richardson differences of an independent Jacobian oracle).",
         note="Trusted: Coq kernel, Coquelicot; translator (validated each run); rounding not modelled. A defect found by this check (SE2 small-angle coefficient -wz/48) was repaired in /repo (fix: eb34743). Known finding C05-K1 (cancellation just above the switch).",
         design_ref="DESIGN.md section 5 C05",
@@ -130,7 +130,7 @@ MANIFEST_TEXT = {
         design_ref="DESIGN.md section 5 C06",
     ),
     "C02": dict(
-        technique="Coq proof over the regenerated model: traced exp (closed-form path) = hand-written flow Phi_a(1), flows proved to solve the matrix ODE with Coquelicot; kernel truncation bounds from stdlib alternating-series enclosures; translator validation; long-double expm oracle harness",
+        technique="Coq proof over the regenerated model: traced exp (closed-form path) = hand-written flow Phi_a(1), flows proved to solve the matrix ODE with Coquelicot; series paths proved equal to the closed-form paths with the kernels replaced by their Taylor polynomials (kernel abstraction) and kernel truncation bounds from stdlib alternating-series enclosures; log range and round trips by field/atan2 lemmas; translator validation; long-double expm oracle harness",
         text="For SO2, SO3, SE2, SE3, C1, Galilei, SE_K_3<1..3>: machine-checked that on every closed-form path of the traced exp (rotation norm^2 > eps2, both sign-canonicalisation outcomes) the documented matrix of the result equals the textbook closed-form flow at t=1 and satisfies the representation constraint; that each flow solves Phi'=Phi hat(a), Phi(0)=I for all t (so exp(a) is the matrix exponential, `is_mexp`); that rotation-free tangents are exact on the series path; and that on 0<x^2<=eps2 the series and closed-form paths of every detail/trig.hpp kernel differ by <=1e-24-scale bounds, and the series path of the whole exp function of SO3, SE2, SE3, Galilei, SE_K_3<1..3> (rotation and translation/velocity parts) is the closed-form path with each kernel replaced by its Taylor polynomial (kernels abstracted from the regenerated model). Log: for SO2 and C1 (all inputs), SO3 and SE2 (closed-form branches) the principal range / norm <= pi, exp(log g) = g and log(exp a) = a (rotation norm below pi) are machine-checked coefficient-wise over the traced log and exp. A changed coefficient, Taylor order, threshold or block breaks an obligation. The remaining log cases and the floating-point accuracy clause by oracle harness (stratified incl. both sides of the switch, near pi, norms to 50).",
         note="Trusted: Coq kernel + Coquelicot; translator (validated each run); hand-written flows; uniqueness of ODE solutions not formalised; rounding not modelled. Known findings C02-K1 (Galilei exp just above the switch).",
         design_ref="DESIGN.md section 5 C02",
